@@ -66,7 +66,7 @@ func randFiller(r *Rng, n int) []byte {
 
 func checkC04(c *Ctx) {
 	r := c.Rng
-	c.Ev.Coverage.Rule = "strings embedded in a one-string document at controlled offsets; streams: every non-surrogate \\u code unit (case chosen per tier), surrogate pairs (stratified quick / all thorough), every byte after a backslash, every byte in every hex position of \\uXXXX and of both halves of a pair, lengths 0..4096, start offsets 0..63, backslash runs 1..130 straddling each offset, strings ending 1..64 bytes before end of input, truncated escapes; non-trivial = in-claim case the specification accepts or a case compared against the model; distinct = by input bytes"
+	c.Ev.Coverage.Rule = "strings embedded in a one-string document at controlled offsets; streams: every non-surrogate \\u code unit (case chosen per tier), surrogate pairs (stratified quick / all thorough), every byte after a backslash, every byte in every hex position of \\uXXXX and of both halves of a pair, lengths 0..4096, start offsets 0..63, backslash runs 1..130 straddling each offset, strings ending 1..64 bytes before end of input, truncated escapes, escapes straddling the block boundary at which the 1408-entry index buffer is handed over (five structural densities); non-trivial = in-claim case the specification accepts or a case compared against the model; distinct = by input bytes"
 	flags := ChkVerdict | ChkDump | ChkModel | ChkKernels | ChkCopyModes | ChkNoPanic
 	var batch []PCase
 	flush := func() {
@@ -221,6 +221,10 @@ func checkC04(c *Ctx) {
 	// every string of the document must still be exposed exactly
 	for _, d := range longStringDocs(r) {
 		add("long-string-after-others", d)
+	}
+	// (11) an escape straddling the block boundary at which stage 1 hands its index buffer over
+	for _, d := range handoverEscapeDocs(false, []int{0, 7, 13, 29, 31, 45, 58}) {
+		add("escape-at-index-handover", d)
 	}
 	// (8) truncated escapes right before the closing quote
 	for _, esc := range []string{`\`, `\u`, `\u0`, `\u00`, `\u004`, `\ud83d`, `\ud83d\`, `\ud83d\u`, `\ud83d\ud`, `\ud83d\ude`, `\ud83d\ude0`} {
